@@ -10,6 +10,7 @@
 -/
 import Driver.Parse
 import LibfiveModel.Solver
+import Driver.C17B32
 open Libfive Libfive.Solver
 
 namespace Driver.C17
@@ -368,6 +369,8 @@ def run (args : List String) (lines : Array String) : Array String := Id.run do
       match cur with
       | some c => out := out ++ runCase c (args.contains "only-unfused"); cur := none
       | none => pure ()
+    -- `b32selftest <seed> <n>`: model of binary32 (LibfiveModel/B32.lean) against native Float32
+    | "b32selftest" :: seed :: n :: _ => out := out ++ Driver.C17B32.selftest (nat! seed) (nat! n)
     | _ => cur := cur.map (addLine · ws)
   return out
 
